@@ -1,0 +1,25 @@
+//go:build verif
+
+package nodeutil
+
+// Contracts for the govc verifier (/verif). Comments only: this file adds no declarations.
+// Syntax: /verif/DESIGN.md section 3.5. Integers in specifications are mathematical.
+
+// ---- C17: key lookup in slice-backed lists ------------------------------------------------------------
+
+// Value() of a typed value is a deterministic function of the value (abstraction used inside this package only)
+//@ pure valOf(a val.Value) interface{}
+//@ interface val.Value.Value() interface{}
+//@   assigns nothing
+//@   ensures result == valOf(self)
+
+// an entry is reported as found only if every key leaf equals the requested key component
+//@ func (def *sliceAsList) findByKey(m meta.Meta, target []val.Value, keyMeta []meta.Leafable) (int, reflect.Value, error)
+//@   mode int
+//@   property C17
+//@   maypanic
+//@   requires def != nil && len(target) == len(keyMeta)
+//@   loop 1 invariant 0 <= row
+//@   loop 2 invariant -1 <= rangeindex && rangeindex < len(candidateKey)
+//@   loop 2 invariant forall j int :: 0 <= j && j <= rangeindex ==> valOf(candidateKey[j]) == valOf(target[j])
+//@   ensures result2 == nil && result0 >= 0 ==> (forall j int :: 0 <= j && j < len(keyMeta) ==> valOf(candidateKey[j]) == valOf(target[j]))
